@@ -44,7 +44,7 @@ func VerifC08Notify(k int) {
 }
 
 // VerifC08Config: for EVERY breaker section that the real configuration
-// validation accepts (thresholds 1..3, max_requests 0 = unset .. 3), the
+// validation accepts (thresholds 1..3, max_requests 0 = unset .. 3 and values around 2^32), the
 // breaker as the balancer builds it (real setupCircuitBreaker, with its own
 // defaulting) trips after failure_threshold failures and, once requests succeed
 // again, is closed after the timeout plus a bounded number of successes - it
@@ -55,7 +55,8 @@ func VerifC08Config() {
 	c.Enabled = true
 	c.FailureThreshold = verifrt.IntRange("failure_threshold", 1, 2)
 	c.SuccessThreshold = verifrt.IntRange("success_threshold", 1, 3)
-	c.MaxRequests = verifrt.IntRange("max_requests", 0, 3)
+	// unset, small, and values just below / at / above the 32-bit range (the breaker counts in uint32)
+	c.MaxRequests = []int{0, 1, 2, 3, 1<<32 - 1, 1 << 32, 1<<32 + 1}[verifrt.Choice("max_requests", 7)]
 	c.IntervalSeconds, c.TimeoutSeconds = 60, 30
 	verifrt.Assume(config.VerifBreakerAccepted(c.FailureThreshold, c.SuccessThreshold, c.MaxRequests))
 	lb, _ := verifFullLB(0, 1, 0)
@@ -70,7 +71,7 @@ func VerifC08Config() {
 	verifrt.Advance(31 * time.Second)
 	admitted := false
 	for i := 0; i < 8; i++ {
-		if i < 2*c.SuccessThreshold+c.MaxRequests+1 {
+		if i < 2*c.SuccessThreshold+4 {
 			admitted = false
 			b.Execute(func() error { admitted = true; return nil })
 		}
